@@ -228,6 +228,17 @@ BUILT["C20"] = (
 PENDING_REASON = "check not built yet in this round (design in DESIGN.md section 3); nothing is claimed for it"
 
 
+def rule_of(pid):
+    """The RULE string of the check module (the explored space as built), read without importing the module."""
+    import ast
+    path = os.path.join(HERE, "lasiomc", "checks", "c%s.py" % pid[1:])
+    tree = ast.parse(open(path).read())
+    for node in tree.body:
+        if isinstance(node, ast.Assign) and any(getattr(t, "id", None) == "RULE" for t in node.targets):
+            return ast.literal_eval(node.value)
+    return ""
+
+
 def main():
     props = [json.loads(l) for l in open(os.path.join(HERE, "properties.jsonl"))]
     try:
@@ -249,7 +260,8 @@ def main():
                 "evidence_file": "/verif/evidence/%s.json" % pid,
                 "replay_cmd_template": "./vcheck %s --replay {path}" % pid,
                 "engine": "lasiomc",
-                "level_claimed": {"category": cat, "text": text, "design_ref": "DESIGN.md section 3, %s" % pid},
+                "level_claimed": {"category": cat, "text": text + " || Explored space as built (the check's own RULE, also in the evidence file): " + rule_of(pid),
+                                  "design_ref": "DESIGN.md section 3 (%s) and section 9 (as built)" % pid},
                 "level_note": note,
                 "technique": tech,
             })
